@@ -181,4 +181,7 @@ def hbuff_prologue():
 
 
 def obligations():
-    return statement_rows() + hbuff_prologue()
+    # defaults such as float(display.hfore) are read from a record the runtime fills by reference: the value that reaches the
+    # library is the documented default only if program and library lay the record out identically (shared with C14)
+    from tx.p_c14 import record_types
+    return statement_rows() + hbuff_prologue() + record_types()
